@@ -456,6 +456,26 @@ theorem call_reread_same {α : Type} (C : Cls α) (B : Str) (s : LSt α) (c : St
     (s.call C B (.chan c)).2 = some v ∧ (s.call C B (.chan c)).1.st = s.st :=
   call_reread_chan_aux C B s c v hnode hcache hrt
 
+/-! ### `registry.close` while threaded plugin code uses the tree -/
+
+/-- with nothing interleaved, the flush under interleaving is the ordinary save -/
+theorem flush_quiet {α : Type} (C : Cls α) (strCalls : Bool) (B : Str) (s : LSt α) :
+    s.saveInterleaved C strCalls B [] = s.save C strCalls B := saveInterleaved_nil_aux C strCalls B s
+
+/-- Full statement (false, known finding C15-flush-interleaved-reset): every line written by a
+flush is a line the node had when the flush began or has when it ends.  Counter-example: `#x` is
+set to 5, the flush lists it, a `config reset channel * #x` of a threaded command runs before its
+line is written: the file records `#x` as explicitly set to the general value 3 — a line it had
+neither before (5), during, nor after (unset) — and a bot restarted from that file no longer lets `#x`
+follow the general value. -/
+theorem flush_interleaved_counterexample :
+    let C := ClassId.cls (fun _ => false) (.int .any) (.i 3)
+    let s0 : LSt Val := ⟨⟨⟨.i 3, true, [], [("#x".toList, ⟨.i 5, true⟩)]⟩, []⟩, false, []⟩
+    let r := s0.saveInterleaved C true "v".toList [[], [TOp.resetChan none "#x".toList]]
+    r.2 = [("v".toList, some (.i 3)), ("v.#x".toList, some (.i 3))] ∧
+      r.1.st.var = ⟨.i 3, true, [], [("#x".toList, ⟨.i 3, false⟩)]⟩ := by
+  decide
+
 /-! ### names -/
 
 /-- `registry.unescape(registry.escape(n)) == n` for every name component (dots, colons,
